@@ -118,6 +118,7 @@ def run(chk) -> None:
     chk.ob("C14.R2", "every CommandScheduleWaiterTimeout becomes a heap entry", not bad and bool(scs), m=m, node=br, fn=pc, instance="waiter-timeout:always", reason="a path through the branch schedules nothing")
     # the reducer side: delayed retries carry the policy's delay (see C06.R2), timeouts are requested with the waiter's timeout (see C10.R3)
 
+    _marker_retraction(chk, repo)
     # in-process release: abort only under the idle marker + timeout test, under the reload lock
     mi, rel = repo.func(f"{IR}:IdleReleaseDecorator._release_idle_handler")
     cfr = CFG(rel)
@@ -136,7 +137,30 @@ def run(chk) -> None:
         chk.ob("C14.R2", "the release decision and abort happen under the per-run reload lock", locked, m=mi, node=c, fn=rel, instance="release:locked", reason="abort outside `async with self._reload_lock(run_id)`")
 
 
+def _marker_retraction(chk, repo) -> None:
+    """R2: after the idle announcement, *whatever* tick the run processes next retracts the idle marker before the release
+    timer can act on it: a waiter timeout or a delayed retry wakes the run through a timer tick, not through an external
+    event, and the step it wakes must not be released from under it."""
+    mi, cls = repo.cls(f"{IR}:_IdleReleaseInternalRunAdapter")
+    ot = next((n for n in cls.body if isinstance(n, (ast.FunctionDef, ast.AsyncFunctionDef)) and n.name == "on_tick"), None)
+    if ot is None:
+        raise AnchorError("C14.R2: _IdleReleaseInternalRunAdapter.on_tick not found")
+    cfo = CFG(ot)
+    tickp = param(ot, 1)
+    clears = [c for c in ast.walk(ot) if isinstance(c, ast.Call) and last(call_name(c)) == "update_handler_status" and kwarg(c, "idle_since") is not None
+              and isinstance(kwarg(c, "idle_since"), ast.Constant) and kwarg(c, "idle_since").value is None]
+    chk.floor("C14.R2", "retractions of the idle marker in on_tick", len(clears), 1)
+    for c in clears:
+        for n in cfo.nodes_of(enclosing_stmt(c)):
+            f = facts_at(cfo, n, expand_locals=True)
+            on_tick_kind = sorted(a for a, _p in f if tickp in [x.id for x in ast.walk(ast.parse(a, mode="eval")) if isinstance(x, ast.Name)]) if f else []
+            chk.ob("C14.R2", "every tick processed after the idle announcement retracts the idle marker (timer ticks included)", not on_tick_kind, m=mi, node=c, fn=ot, instance="marker:retracted-by-any-tick",
+                   reason=f"the retraction depends on the kind of tick ({on_tick_kind}): a waiter timeout or a delayed retry wakes the run through a timer tick, idle_since stays set, and the release timer aborts the step that is handling it")
+
+
 TWINS = [
+    Twin("marker retracted only by add-event ticks", IR_REL, "        if self._marked_idle:\n", "        if self._marked_idle and type(tick).__name__ == \"TickAddEvent\":\n", "C14.R2"),
+    Twin("benign: marker flag read into a local", IR_REL, "        if self._marked_idle:\n", "        was_idle = self._marked_idle\n        if was_idle:\n", None),
     Twin("waiter timeout for wrong waiter", CL_REL, "                    step_name=command.step_name, waiter_id=command.waiter_id\n                ),\n                at_time=now + command.timeout,", "                    step_name=command.step_name, waiter_id=\"\"\n                ),\n                at_time=now + command.timeout,", "C14.R2"),
     Twin("waiter timeout immediate", CL_REL, "                at_time=now + command.timeout,", "                at_time=now,", "C14.R2"),
     Twin("release without timeout test", IR_REL, "            if elapsed < self._idle_timeout:\n                return\n", "", "C14.R2"),
